@@ -40,7 +40,7 @@ class Sess(Family):
         for _ in range(1 + rng.below(7)):
             op = rng.choice(OPS_ACK + OPS_REPLY)
             nums, data, fds, regions = fe.args_for(rng, st, op)
-            outcome = 0 if rng.chance(2, 3) else rng.choice([1, 1, 2])
+            outcome = 0 if rng.chance(2, 3) else rng.choice([1, 1, 2, 5] if op == "get_config" else [1, 1, 2])
             steps.append(sstep(op, nums, data, fds, regions, outcome))
             if op == "set_protocol_features" and (st.vf & W.VF_PROTOCOL_FEATURES):
                 st.apf = nums[0] & W.PF_ALL
@@ -65,7 +65,7 @@ class Sess(Family):
             if rng.chance(1, 2):
                 steps.append(sstep("set_config", [off, rng.choice([0, 1, 2, 3])], data, outcome=0))
             else:
-                steps.append(sstep("get_config", [off, n, rng.choice([0, 1, 2, 3])], data, outcome=0))
+                steps.append(sstep("get_config", [off, n, rng.choice([0, 1, 2, 3])], data, outcome=rng.choice([0, 0, 0, 5, 2])))
             if rng.chance(1, 2):
                 steps.append(sstep("get_queue_num", outcome=0))
         return [VN(maxq), VL([VN(feat), VN(pfeat)]), VL(steps)]
